@@ -126,8 +126,17 @@ Definition local_r (r : rsweep) : bool :=
      end.
 
 (* r_items etc. really are dicts (no repeated key), so that to_sweep does not collapse anything *)
+(* a callable that looks at the whole dict sees the insertion order of its keys; the documented list fixes that
+   order only when dims is omitted or in item order (otherwise combinations are compared as finite maps) *)
+Definition has_global (r : rsweep) : bool :=
+  match r_ders r with
+  | None => false
+  | Some l => existsb (fun kd => match reads_d (snd kd) with None => true | Some _ => false end) l
+  end.
+
 Definition wf_r (r : rsweep) : bool :=
-  nodup_str (map fst (r_items r))
+  (in_item_order (to_sweep r) || negb (has_global r))
+  && nodup_str (map fst (r_items r))
   && nodup_str (match r_consts r with None => [] | Some l => map fst l end)
   && nodup_str (match r_ders r with None => [] | Some l => map fst l end)
   && wf_sweep (to_sweep r).
